@@ -478,8 +478,8 @@ func (c *Conn) SetWriteDeadline(t time.Time) error {
 }
 
 // In and Out expose the links to the harness.
-func (c *Conn) In() *Link    { return c.in }
-func (c *Conn) Out() *Link   { return c.out }
+func (c *Conn) In() *Link  { return c.in }
+func (c *Conn) Out() *Link { return c.out }
 func (c *Conn) IsClosed() bool {
 	c.n.mu.Lock()
 	defer c.n.mu.Unlock()
